@@ -527,57 +527,68 @@ def rewrittenSeg (p : Params) (rw : Rewrite) : Seg :=
   { base := minOff (rw.survive.map (·.off)), ver := rw.ver, recs := rw.survive,
     idxf := some ⟨rw.iver, derive p rw.ver rw.survive⟩, mem := none }
 
+/-- `segs[0,i) ++ new ++ segs(i, …)`: the segment list after segment `i` was swapped out. -/
+def replaceAt (segs : List Seg) (i : Nat) (new : List Seg) : List Seg :=
+  segs.take i ++ new ++ segs.drop (i + 1)
+
+/-- `reader.Delete`: a reader segment is dropped (nothing survives) or replaced by the
+rewritten one (renamed to its lowest surviving offset). -/
+def swapReader (l : Log) (i : Nat) (rw : Rewrite) : Log :=
+  if rw.survive.isEmpty then { l with segs := replaceAt l.segs i [] }
+  else { l with segs := replaceAt l.segs i [rewrittenSeg l.opts.params rw] }
+
+/-- The last offset the writer index knows (`writerIndex.getLastOffset`). -/
+def headLastOff (s : Seg) : Int :=
+  match s.mem.bind (·.getLast?) with
+  | some it => it.off
+  | none => offsetInvalid
+
+def tailDeleted (s : Seg) (rw : Rewrite) : Bool :=
+  match rw.deleted.getLast? with
+  | some d => d.off == headLastOff s
+  | none => false
+
+/-- `writer.Delete`: nothing survives → a fresh empty head at the next offset; the tail was
+deleted → the rewritten segment becomes a reader and a fresh empty head opens at the next
+offset; otherwise the rewritten segment is reopened as the head. -/
+def swapHead (l : Log) (i : Nat) (s : Seg) (rw : Rewrite) : Log :=
+  if rw.survive.isEmpty then
+    let r := openWriter l.opts (emptySeg l.wNextOff) l.wNextTime
+    { l with segs := replaceAt l.segs i [r.1], wNextOff := r.2.1, wNextTime := r.2.2 }
+  else if tailDeleted s rw then
+    let r := openWriter l.opts (emptySeg l.wNextOff) l.wNextTime
+    { l with segs := replaceAt l.segs i [rewrittenSeg l.opts.params rw, r.1],
+             wNextOff := r.2.1, wNextTime := r.2.2 }
+  else
+    let r := openWriter l.opts (rewrittenSeg l.opts.params rw) l.wNextTime
+    { l with segs := replaceAt l.segs i [r.1], wNextOff := r.2.1, wNextTime := r.2.2 }
+
+/-- `findDeleteReader`: the segment holding the lowest requested offset. -/
+def deleteTarget (l : Log) (offs : List Int) : Except Err Nat :=
+  let lowest := minOff offs
+  if lowest < 0 then .error .invalidOffset else
+  match SegSearch.get (bases l) lowest with
+  | .error _ => .error .panic
+  | .ok (.error .relative) => .error .invalidOffset
+  | .ok (.error .beforeStart) => .error .notFound
+  | .ok (.ok iI) => .ok iI.toNat
+
 /-- `log.Delete` / `log.delete`. Returns the deleted messages and their size. -/
 def Log.delete (l : Log) (offs : List Int) : Log × Out (List Msg × Int) :=
   if l.opts.readonly then (l, .err .readonly) else
   if offs.isEmpty then (l, .ok ([], 0)) else
-  let lowest := minOff offs
-  if lowest < 0 then (l, .err .invalidOffset) else
-  match SegSearch.get (bases l) lowest with
-  | .error _ => (l, .err .panic)
-  | .ok (.error .relative) => (l, .err .invalidOffset)
-  | .ok (.error .beforeStart) => (l, .err .notFound)
-  | .ok (.ok iI) =>
-    let i := iI.toNat
+  match deleteTarget l offs with
+  | .error e => (l, .err e)
+  | .ok i =>
     match l.segs[i]? with
     | none => (l, .err .panic)
     | some s =>
-      let isHead := i + 1 == l.segs.length
-      let (mver, iver) := if l.opts.keep then (s.ver, s.ver) else (l.opts.nsv, l.opts.nsv)
-      -- an empty V1 head file has no header: OpenReader reports V1
-      let rw := rewrite l.opts.params s offs mver iver
-      if rw.deleted.isEmpty then (l, .ok ([], 0)) else
-      let pre := l.segs.take i
-      let post := l.segs.drop (i + 1)
-      if ¬ isHead then
-        -- reader.Delete
-        if rw.survive.isEmpty then
-          ({ l with segs := pre ++ post }, .ok (rw.deleted, rw.delSize))
-        else
-          let ns := rewrittenSeg l.opts.params rw
-          ({ l with segs := pre ++ [ns] ++ post }, .ok (rw.deleted, rw.delSize))
-      else
-        -- writer.Delete
-        let lastOff := match s.mem.bind (·.getLast?) with
-          | some it => it.off
-          | none => offsetInvalid
-        if rw.survive.isEmpty then
-          let (nh, nOff, nTime) := openWriter l.opts (emptySeg l.wNextOff) l.wNextTime
-          ({ l with segs := pre ++ [nh], wNextOff := nOff, wNextTime := nTime },
-            .ok (rw.deleted, rw.delSize))
-        else
-          let ns := rewrittenSeg l.opts.params rw
-          let tailDeleted := match rw.deleted.getLast? with
-            | some d => d.off == lastOff
-            | none => false
-          if tailDeleted then
-            let (nh, nOff, nTime) := openWriter l.opts (emptySeg l.wNextOff) l.wNextTime
-            ({ l with segs := pre ++ [ns, nh], wNextOff := nOff, wNextTime := nTime },
-              .ok (rw.deleted, rw.delSize))
-          else
-            let (nh, nOff, nTime) := openWriter l.opts ns l.wNextTime
-            ({ l with segs := pre ++ [nh], wNextOff := nOff, wNextTime := nTime },
-              .ok (rw.deleted, rw.delSize))
+      -- rewrite in the segment's own version (KeepRewriteVersion) or in NewSegmentsVersion
+      let mver := if l.opts.keep then s.ver else l.opts.nsv
+      let rw := rewrite l.opts.params s offs mver mver
+      if rw.deleted.isEmpty then (l, .ok ([], 0))
+      else if i + 1 == l.segs.length then (swapHead l i s rw, .ok (rw.deleted, rw.delSize))
+      else (swapReader l i rw, .ok (rw.deleted, rw.delSize))
 
 /-! ### open / close -/
 
